@@ -40,14 +40,15 @@ BRIDGE = {
 
 # translated functions (harness/pyfun2lean.py) each property's model or harness relies on: `Generated.Funcs.f = Pinned.Funcs.f`
 BRIDGE_FUNCS = {
-    "C03": ["to_snake_case"],
+    "C03": ["to_snake_case", "client_method_name"],
     "C04": ["to_camel_case", "fix_name_segment", "fix_field_path"],
     "C06": ["field_header_disambiguated", "routing_param_disambiguated_field"],
     "C08": ["address_resolve"],
     "C11": ["to_valid_filename", "to_valid_module_name"],
-    "C12": ["to_snake_case", "to_valid_module_name", "fix_name_segment", "fix_field_path"],
+    "C12": ["to_snake_case", "to_valid_module_name", "fix_name_segment", "fix_field_path", "client_method_name"],
     "C14": ["coerce_response_name"],
-    "C15": ["to_snake_case", "make_private"],
+    "C15": ["to_snake_case", "make_private", "client_method_name"],
+    "C16": ["make_private", "client_method_name"],
     "C20": ["is_list_item", "get_subsequent_line_indentation_level", "fix_whitespace"],
 }
 
